@@ -21,15 +21,17 @@ import hashlib
 from common import SPEC, VERIF, Ctx, MachineryError
 from tlc import must_ok, read_sim_traces, run_tlc
 from replay_assoc import replay
+from graph import guided_walks, load_dot
 
 MODULE = """---- MODULE {name} ----
 EXTENDS Assoc
 MCNodes == {{"A"}}
 MCRole == [n \\in MCNodes |-> "acceptor"]
 MCOther == [n \\in MCNodes |-> "A"]
-MCUserOps == [n \\in MCNodes |-> {{"abort", "release"}}]
-MCPolicy == [n \\in MCNodes |-> {{"accept", "reject"}}]
-MCFrames == {{"RQ", "RQBADPV", "AC", "PD_REQ", "PD_BADMSG", "RELRQ", "RELRP", "ABORT0", "BADTYPE"}}
+MCUserOps == [n \\in MCNodes |-> {{{ops}}}]
+MCPolicy == [n \\in MCNodes |-> {{{policy}}}]
+MCHandlerAbort == [n \\in MCNodes |-> {{{habort}}}]
+MCFrames == {{{frames}}}
 MCKnown == {{{known}}}
 View == <<[n \\in Nodes |-> [nd[n] EXCEPT !.sent = <<>>, !.fired = <<>>]], wire, weof, npeer, ntick>>
 Trap == \\A n \\in Nodes : nd[n].crash # {trap}
@@ -47,6 +49,7 @@ CONSTANTS Nodes <- MCNodes
           MaxOps = 1
           Policy <- MCPolicy
           KnownCrash <- MCKnown
+          HandlerAbort <- MCHandlerAbort
 {view}
 {invs}
 """
@@ -56,9 +59,18 @@ def sig_tla(s) -> str:
     return f'<<"{s["role"]}", {s["event"]}, {s["state"]}>>'
 
 
-def write_model(ctx, name, known, trap=None, maxpeer=2, maxtick=1, invs=("C05_DefinedEventsOnly", "C05_DoneImpliesIdle"), view=True):
+ALL_FRAMES = ("RQ", "RQBADPV", "AC", "PD_REQ", "PD_BADMSG", "RELRQ", "RELRP", "ABORT0", "BADTYPE")
+
+
+def q(xs):
+    return ", ".join('"%s"' % x for x in xs)
+
+
+def write_model(ctx, name, known, trap=None, maxpeer=2, maxtick=1, invs=("C05_DefinedEventsOnly", "C05_DoneImpliesIdle"), view=True,
+                frames=ALL_FRAMES, ops=("abort", "release"), policy=("accept", "reject"), habort=("FALSE", "TRUE")):
     with open(os.path.join(ctx.work, name + ".tla"), "w") as f:
-        f.write(MODULE.format(name=name, known=", ".join(sig_tla(k) for k in known), trap=sig_tla(trap) if trap else "<<0>>"))
+        f.write(MODULE.format(name=name, known=", ".join(sig_tla(k) for k in known), trap=sig_tla(trap) if trap else "<<0>>",
+                              frames=q(frames), ops=q(ops), policy=q(policy), habort=", ".join(habort)))
     with open(os.path.join(ctx.work, name + ".cfg"), "w") as f:
         f.write(CFG.format(maxpeer=maxpeer, maxtick=maxtick, view="VIEW View" if view else "",
                            invs="\n".join("INVARIANT " + i for i in invs)))
@@ -96,8 +108,13 @@ def judge_replay(ctx, rep, beh, kind):
     """Property predicates on observed values; everything else is drift."""
     if rep.crash is not None:
         role, e, s = rep.crash
-        ctx.violation({"role": role, "event": e, "state": s},
-                      f"real provider thread died: InvalidEventError Evt{e} in Sta{s} ({kind}); actions={rep.trace}",
+        # a crash is a *known* finding only when the model (which contains exactly the crashes listed
+        # in known_findings.json) predicted this crash at this step of this history; the same
+        # (event, state) reached along a history the model does not explain is a new violation
+        ctx.violation({"role": role, "event": e, "state": s, "predicted": rep.crash_predicted},
+                      f"real provider thread died: InvalidEventError Evt{e} in Sta{s} ({kind}; "
+                      f"{'as the model predicts for the known defect' if rep.crash_predicted else 'NOT explained by the model'}); "
+                      f"actions={rep.trace}; diverged={json.dumps(rep.diverged, default=str)[:400] if rep.diverged else None}",
                       {"behaviour": [l for l, _ in beh]})
     if rep.done_not_idle is not None:
         ctx.violation({"role": "acceptor", "clause": "done-not-idle", "sock": rep.done_not_idle["sock"]},
@@ -109,7 +126,7 @@ def judge_replay(ctx, rep, beh, kind):
 
 def run(ctx: Ctx) -> int:
     thorough = ctx.tier == "thorough"
-    known = [k["signature"] for k in ctx.known if "event" in k["signature"]]
+    known = [{kk: vv for kk, vv in k["signature"].items() if kk != "predicted"} for k in ctx.known if "event" in k["signature"]]
     part = os.environ.get("VERIF_C05_PART", "all")
     # ---- MC -----------------------------------------------------------------------------------
     if part == "sim":
@@ -128,7 +145,7 @@ def run(ctx: Ctx) -> int:
         last = r.trace[-1][1]["nd"]["A"] if r.trace else {}
         if r.violated == "C05_DefinedEventsOnly" and last.get("crash"):
             c = last["crash"]
-            sig = {"role": c[0], "event": c[1], "state": c[2]}
+            sig = {"role": c[0], "event": c[1], "state": c[2], "predicted": False}
         # a model-level counterexample is confirmed on the real code before it is reported
         rep = replay(r.trace, "A", "acceptor") if r.trace else None
         if rep is not None and (rep.crash or rep.done_not_idle):
@@ -148,30 +165,54 @@ def run(ctx: Ctx) -> int:
         rep = replay(beh, "A", "acceptor")
         ctx.traces += 1
         ctx.case(("witness", k["event"], k["state"]))
-        if rep.crash == (k["role"], k["event"], k["state"]):
+        if rep.crash == (k["role"], k["event"], k["state"]) and rep.crash_predicted:
             judge_replay(ctx, rep, beh, "witness")
             ctx.sample({"known_finding_witness": [l for l, _ in beh], "real_crash": rep.crash})
         else:
             ctx.drifted(f"known finding {k} did not reproduce on the code (stale?): crash={rep.crash} diverged={rep.diverged}")
     # ---- simulated behaviours replayed on the real threads ------------------------------------------
-    sim = os.path.join(ctx.work, "sim")
-    os.makedirs(sim, exist_ok=True)
-    n = 1500 if thorough else 150
-    write_model(ctx, "MC_C05_sim", known, maxpeer=3, maxtick=2, view=False, invs=())
-    must_ok(run_tlc("MC_C05_sim", workdir=ctx.work, spec_dir=ctx.work, workers=1,
-                    simulate=f"file={sim}/tr,num={n}", depth=45, seed=ctx.seed + 7, timeout=1200))
-    behs = read_sim_traces(os.path.join(sim, "tr"))
-    if len(behs) < n // 2:
-        raise MachineryError(f"only {len(behs)} simulated behaviours")
-    for i, beh in enumerate(behs):
-        rep = replay(beh, "A", "acceptor")
-        ctx.traces += 1
-        last = beh[-1][1]["nd"]["A"]
-        ctx.case((last["st"], last["apc"], last["upc"], str(last["crash"]), tuple(l.split("(")[0] for l, _ in beh[-6:])),
-                 nontrivial=last["st"] != 1 or bool(last["fired"]))
-        judge_replay(ctx, rep, beh, f"sim#{i}")
-        if i < 2:
-            ctx.sample({"behaviour": [l for l, _ in beh], "final_impl": {k: rep.final[k] for k in ("st", "sock", "dalive", "fired", "sent")} if rep.final else None})
+    # one general scenario plus directed ones (restricted environments make the deep paths frequent)
+    scenarios = [
+        ("general", dict(maxpeer=3, maxtick=2)),
+        ("serve+handler-abort", dict(maxpeer=3, maxtick=1, frames=("RQ", "PD_REQ", "RELRQ"), policy=("accept",), ops=())),
+        ("serve+user-abort+garbage", dict(maxpeer=3, maxtick=0, frames=("RQ", "PD_REQ", "BADTYPE"), policy=("accept",), ops=("abort",), habort=("FALSE",))),
+        ("release-paths", dict(maxpeer=3, maxtick=0, frames=("RQ", "RELRQ", "ABORT0"), policy=("accept",), ops=("release",), habort=("FALSE",))),
+        ("negotiation-faults", dict(maxpeer=2, maxtick=1, frames=("RQ", "RQBADPV", "BADTYPE", "AC"), ops=("abort",), habort=("FALSE",))),
+    ]
+    per = (800 if thorough else int(os.environ.get("VERIF_C05_N", "100")))
+    nb = 0
+    for si, (sname, kw) in enumerate(scenarios):
+        sim = os.path.join(ctx.work, f"sim{si}")
+        os.makedirs(sim, exist_ok=True)
+        write_model(ctx, f"MC_C05_sim{si}", known, view=False, invs=(), **kw)
+        if sname == "general":
+            must_ok(run_tlc(f"MC_C05_sim{si}", workdir=ctx.work, spec_dir=ctx.work, workers=1,
+                            simulate=f"file={sim}/tr,num={per}", depth=60, seed=ctx.seed + 7 + si, timeout=1200))
+            behs = read_sim_traces(os.path.join(sim, "tr"))
+        else:
+            # directed scenario: dump the whole (small) state graph and walk it edge-targeted
+            dot = os.path.join(sim, "graph.dot")
+            rg = must_ok(run_tlc(f"MC_C05_sim{si}", workdir=ctx.work, spec_dir=ctx.work, workers=8,
+                                 extra=["-dump", "dot,actionlabels", dot], timeout=1200))
+            ctx.add_tlc(rg)
+            g = load_dot(dot)
+            behs, cov = guided_walks(g, per, 90, ctx.seed + si)
+            ctx.cov.setdefault("graph_edge_coverage", {})[sname] = {"edges": g.n_edges, "covered_by_walks": cov, "states": len(g.raw)}
+            os.remove(dot)
+        if len(behs) < per // 2:
+            raise MachineryError(f"only {len(behs)} behaviours for scenario {sname}")
+        for i, beh in enumerate(behs):
+            rep = replay(beh, "A", "acceptor")
+            ctx.traces += 1
+            nb += 1
+            last = beh[-1][1]["nd"]["A"]
+            ctx.case((last["st"], last["apc"], last["upc"], str(last["crash"]), tuple(l.split("(")[0] for l, _ in beh[-6:])),
+                     nontrivial=last["st"] != 1 or bool(last["fired"]))
+            judge_replay(ctx, rep, beh, f"{sname}#{i}")
+            if i == 0 and si < 3:
+                ctx.sample({"scenario": sname, "behaviour": [l for l, _ in beh],
+                            "final_impl": {k: rep.final[k] for k in ("st", "sock", "dalive", "fired", "sent")} if rep.final else None})
+        ctx.count("scenario_" + sname, len(behs))
     ctx.assume(
         "time-progress assumption: timeouts fire only while the provider loop has nothing to do (Quiet), except during a slow read",
         "steps of real threads are serialised at the modelled boundaries (queue reads, event waits, spin sleeps, DUL hook points)",
